@@ -35,7 +35,7 @@ Rec == ndJsonDeserialize(IOEnv.TRACE)
 VARIABLES l, hdr, seq, viol,
           nDevA, nDevB,           \* scenarios explained by Dev_F06a / Dev_F06b only (counters: a list would make
                                   \* every state as large as the number of deviations seen so far)
-          firstDev,               \* line of the first scenario explained by each deviation (witness)
+          firstDev,               \* the first 20 scenarios explained by a deviation: <<line, finding>>
           nOld, nNew, nSame,      \* how the conforming recoveries came out (evidence of non-vacuity)
           nStrictBad              \* non-conforming scenarios of the informational crash model
 
@@ -92,7 +92,7 @@ DevF06b(e) ==
         /\ e.res.segs = hdr.old.segs \o ZeroSeq((f.vlen - f.dlen) \div 4)
 
 TInit == /\ l = 1 /\ hdr = [routine |-> ""] /\ seq = 0 /\ viol = <<>> /\ nDevA = 0 /\ nDevB = 0
-         /\ firstDev = [a |-> 0, b |-> 0]
+         /\ firstDev = <<>>
          /\ nOld = 0 /\ nNew = 0 /\ nSame = 0 /\ nStrictBad = 0
 
 Step ==
@@ -115,8 +115,8 @@ Step ==
            /\ viol' = IF good \/ (soft /\ seqok) THEN viol ELSE Append(viol, l)
            /\ nDevA' = IF ~soft /\ seqok /\ dA THEN nDevA + 1 ELSE nDevA
            /\ nDevB' = IF ~soft /\ seqok /\ ~dA /\ dB THEN nDevB + 1 ELSE nDevB
-           /\ firstDev' = [a |-> IF firstDev.a = 0 /\ ~soft /\ seqok /\ dA THEN l ELSE firstDev.a,
-                           b |-> IF firstDev.b = 0 /\ ~soft /\ seqok /\ ~dA /\ dB THEN l ELSE firstDev.b]
+           /\ firstDev' = IF ~soft /\ seqok /\ (dA \/ dB) /\ Len(firstDev) < 20
+                           THEN Append(firstDev, <<l, IF dA THEN "F06a" ELSE "F06b">>) ELSE firstDev
            /\ nStrictBad' = IF soft /\ ~ok THEN nStrictBad + 1 ELSE nStrictBad
            /\ nSame' = IF ok /\ IsOld(e) /\ IsNew(e) THEN nSame + 1 ELSE nSame
            /\ nOld' = IF ok /\ IsOld(e) /\ ~IsNew(e) THEN nOld + 1 ELSE nOld
@@ -125,8 +125,8 @@ Step ==
 
 TNext == Step
 Done == (l = Len(Rec) + 1) =>
-  PrintT(<<"VERDICT", ToJson([events |-> Len(Rec), violations |-> viol, deviations |-> <<>>,
-                              dev_F06a |-> nDevA, dev_F06b |-> nDevB, first |-> firstDev,
+  PrintT(<<"VERDICT", ToJson([events |-> Len(Rec), violations |-> viol, deviations |-> firstDev,
+                              dev_F06a |-> nDevA, dev_F06b |-> nDevB,
                               rec_old |-> nOld, rec_new |-> nNew, rec_same |-> nSame,
                               strict_nonconforming |-> nStrictBad])>>)
 =============================================================================
